@@ -57,3 +57,10 @@ P("C06", "model_checking", kani={"timeout": "900s"},
 P("C04", "model_checking", kani={"timeout": "900s"},
   bounded="depth profiles n<=3 (+n=4 samples), d<=3; join!/try_join!/join_async!/try_join_async!, with then/map/and_then handlers and let patterns; values symbolic",
   not_decided="spawn kinds; the filtering closures of extract_results_tuple are outside Verus (FnMut capture)")
+
+P("C09", "model_checking", kani={"timeout": "1200s"},
+  bounded="join_async!/try_join_async!, profiles n<=3 d<=2 (thorough: d<=3, n=4 sample), one harness-controlled gate per (branch, step) with symbolic pending count <= 1: every readiness pattern incl. batches; polls <= 1 + sum_s max_i p_is",
+  not_decided="tokio-task variant; unbounded liveness")
+P("C03", "model_checking", kani={"timeout": "1200s"},
+  bounded="sync: profiles n<=3 d<=3 with 7 operator kinds rotating over positions (incl. deferred error operators), exact staged trace; async: same gate programs as C09, monotone step numbers in the trace",
+  not_decided="OS-thread interleavings and tokio task schedules (Kani has no thread support)")
